@@ -5,6 +5,7 @@
 import SymfcModel.Model.Tables
 import SymfcModel.Gen.PermTables
 import SymfcModel.Lemmas.Coverage
+import SymfcModel.Lemmas.Pipeline
 namespace Symfc.C04
 open Symfc
 
@@ -73,5 +74,37 @@ theorem order4_ppqq_elements_are_forced_to_zero (c : Cell) (hwf : c.wf = true) (
 theorem ppqq_means_two_pairs_each_twice (t : List Nat) :
     Cov.ppqq t = true ↔ t.length = 4 ∧ ∃ a b, a ≠ b ∧ t.count a = 2 ∧ t.count b = 2 :=
   Cov.ppqq_iff_counts t
+
+/-- C04, the linear-algebra end of the pipeline (`FCBasisSetO{2,3,4}.run`): with `A = c_pt` (orthonormal columns),
+    `P` the coset projector (symmetric idempotent), `W₂ = eigsh_projector(Aᵀ P A)`, `T` the sum-rule matrix,
+    `W₃ = eigsh_projector_sumrule(1 − (1/ν)(A W₂)ᵀ Tᵀ T (A W₂))` — where the eigen-solvers are only assumed to return
+    an orthonormal basis of the eigenvalue-1 eigenspace (`EigBasis`, the trusted eigen contract; C15 is about the
+    solvers keeping it) — the returned basis `B = A W₂ W₃` spans EXACTLY the tensors that are in the range of `A`
+    (index-permutation and translation invariant, zero beyond the cutoff), fixed by `P` (space-group invariant) and
+    annihilated by `T` (sum rule). Nothing admissible is missing and nothing inadmissible is included; no commutation
+    between the three constraints is needed. -/
+theorem basis_spans_exactly_the_admissible_space {K : Type*} [Field K] [LinearOrder K] [IsStrictOrderedRing K]
+    {m k₁ k₂ k₃ r : Type*} [Fintype m] [Fintype k₁] [Fintype k₂] [Fintype k₃] [Fintype r]
+    [DecidableEq m] [DecidableEq k₁] [DecidableEq k₂] [DecidableEq k₃]
+    (A : Matrix m k₁ K) (P : Matrix m m K) (T : Matrix r m K) (ν : K) (W₂ : Matrix k₁ k₂ K) (W₃ : Matrix k₂ k₃ K)
+    (hA : A.transpose * A = 1) (h₂ : Pipeline.EigBasis (A.transpose * P * A) W₂)
+    (h₃ : Pipeline.EigBasis (Pipeline.sumruleProj (A * W₂) T ν) W₃)
+    (hPs : P.transpose = P) (hPi : P * P = P) (hν : 0 < ν) (x : m → K) :
+    (∃ w : k₃ → K, x = (A * W₂ * W₃).mulVec w) ↔
+      ((∃ y : k₁ → K, x = A.mulVec y) ∧ P.mulVec x = x ∧ T.mulVec x = 0) :=
+  Pipeline.pipeline_range A P T ν W₂ W₃ hA h₂ h₃ hPs hPi hν x
+
+/-- … and every admissible tensor is reproduced from its coefficients `Bᵀ x`, which are unique. -/
+theorem every_admissible_tensor_is_a_unique_combination {K : Type*} [Field K] [LinearOrder K] [IsStrictOrderedRing K]
+    {m k₁ k₂ k₃ r : Type*} [Fintype m] [Fintype k₁] [Fintype k₂] [Fintype k₃] [Fintype r]
+    [DecidableEq m] [DecidableEq k₁] [DecidableEq k₂] [DecidableEq k₃]
+    (A : Matrix m k₁ K) (P : Matrix m m K) (T : Matrix r m K) (ν : K) (W₂ : Matrix k₁ k₂ K) (W₃ : Matrix k₂ k₃ K)
+    (hA : A.transpose * A = 1) (h₂ : Pipeline.EigBasis (A.transpose * P * A) W₂)
+    (h₃ : Pipeline.EigBasis (Pipeline.sumruleProj (A * W₂) T ν) W₃)
+    (hPs : P.transpose = P) (hPi : P * P = P) (hν : 0 < ν) (x : m → K)
+    (hx : (∃ y : k₁ → K, x = A.mulVec y) ∧ P.mulVec x = x ∧ T.mulVec x = 0) :
+    (A * W₂ * W₃).mulVec ((A * W₂ * W₃).transpose.mulVec x) = x ∧
+      ∀ w : k₃ → K, (A * W₂ * W₃).mulVec w = x → w = (A * W₂ * W₃).transpose.mulVec x :=
+  Pipeline.pipeline_complete A P T ν W₂ W₃ hA h₂ h₃ hPs hPi hν x hx
 
 end Symfc.C04
